@@ -1,7 +1,12 @@
 //! fcverif: conformance harness binding the TLA+ specifications in /verif/spec to the
 //! flatcontainer crate in /repo (path dependency, rebuilt from the working tree).
+mod catalogue;
 mod ic;
+mod interp;
+mod judge;
+mod slot;
 mod util;
+mod val;
 
 fn arg(args: &[String], name: &str) -> Option<String> {
     args.iter().position(|a| a == name).and_then(|i| args.get(i + 1).cloned())
@@ -17,6 +22,13 @@ fn main() {
             let out = arg(&args, "--out").expect("--out");
             ic::cmd_replay(file, &prop, &out);
         }
+        "replay" => {
+            let file = args.get(2).expect("edge file");
+            let prop = arg(&args, "--prop").expect("--prop");
+            let out = arg(&args, "--out").expect("--out");
+            judge::cmd_replay(file, &prop, &out);
+        }
+        "catalogue" => println!("{}", serde_json::to_string_pretty(&catalogue::catalogue_json()).unwrap()),
         "profile" => println!("{}", util::profile_name()),
         _ => {
             eprintln!("usage: fcverif <ic-replay|...>");
